@@ -1,22 +1,32 @@
-// Conformance driver for spec/utility/{Strings,PseudoUrl,FileNames,ArgList,SiPrint}.tla
-// (property C18).  Interprets the actions of the specifications on the real
-// rkcommon functions / objects and reports the observables the specifications
-// talk about.  It decides nothing.
+// Conformance driver for spec/utility/{Strings,PseudoUrl,FileNames,ArgList,SiPrint,
+// BigStrings,ByteSweep,FileObjs,UrlObjs}*.tla (property C18).  Interprets the actions
+// of the specifications on the real rkcommon functions / objects and reports the
+// observables the specifications talk about.  It decides nothing.
 //
 // Functional actions (one-step histories):
-//   SplitChar{s,d} SplitSet{s,d} Tokenize{s,d} Lcp{x,y} BeginsWith{x,y}
-//   UrlParse{u,q}  FnSplit{s} FnNameExt{s} FnDropExt{s} FnSetExt{s,x} FnAddExt{s,x} FnPlus{s,o[,dflt]} FnRecompose{s}
+//   SplitChar{s,d} SplitSet{s,d} Tokenize{s,d} Lcp{x,y} BeginsWith{x,y} TokenizeReuse{s1,s2,d}
+//   SplitCharRep / SplitSetRep / TokenizeRep {u,n,tail,d}     the string u^n tail (many tokens)
+//   UrlParse{u,q}  UrlParseRep{t,f,names,n,q}                 n parameters names[(i-1)%p] = v<i>
+//   FnSplit{s} FnNameExt{s} FnDropExt{s} FnSetExt{s,x} FnAddExt{s,x} FnPlus{s,o[,dflt]} FnRecompose{s}
 //   PrettyDouble{neg,m,e}   the double nearest to (-1)^neg * m * 10^e
 //   PrettyNumber{limbs}     the count limbs[0] * 10^18 + limbs[1] * 10^9 + limbs[2]
-// ADT actions (ArgumentList, variant "list"; raw argc/argv + removeArgs, variant "acav"):
-//   Construct{v} Get{i} Remove{w,h} ParseAndRemove{cnt}; record mode: RemoveMod{w,h} GetMod{i}
+// Object histories:
+//   ArgumentList (variant "list") / raw argc-argv + removeArgs (variant "acav"):
+//     Construct{v} ConstructRep{pat,n,tail} Get{i} Remove{w,h} ParseAndRemove{cnt} Snapshot CheckSnapshot;
+//     record mode: RemoveMod{w,h} GetMod{i}
+//   FileName objects:  FoNew{d,s} FoAssign{d,s} FoPlus{d,l,r,ov} FoSetExt{d,s,x} FoDropExt{d,s}
+//   PseudoURL objects: PuNew{d,u} PuCopy{d,s} PuAsk{d,n} PuDrop{d}
 //
-// Strings are exchanged as JSON strings; with "chars":true in the history line
-// every specification-level string is written as an array of one-character
-// strings (what the TLA+ modules work on) and accepted in either form.
+// String exchange formats (input accepted in every form):
+//   plain JSON strings;
+//   "chars":true in the history line: arrays of one-character strings (what the TLA+ modules work on);
+//   "rle":true in the arguments: blocks [[unit, n], ...] (unit repeated n times), results run-length encoded [[c, n], ...];
+//   "byte":b in the arguments: the placeholder character X stands for the byte value b (X -> b on the way in,
+//   b -> X on the way out; the specification's cases are indifferent to which non-structural character X is).
 #include <cstdlib>
 #include <cstring>
 #include <map>
+#include <sstream>
 #include <string>
 #include <vector>
 #include "driver.h"
@@ -29,9 +39,29 @@
 using vj::Json;
 
 static bool g_chars = false;
+static bool g_rle = false;
+static int g_byte = -1;
 
-static Json S(const std::string &s)
+static Json S(const std::string &s0)
 {
+  std::string s = s0;
+  if (g_byte >= 0)
+    for (auto &c : s)
+      if ((unsigned char)c == (unsigned char)g_byte) c = 'X';
+  if (g_rle) {
+    Json a = Json::array();
+    size_t i = 0;
+    while (i < s.size()) {
+      size_t j = i;
+      while (j < s.size() && s[j] == s[i]) ++j;
+      Json b = Json::array();
+      b.push(Json(std::string(1, s[i])));
+      b.push(Json((long long)(j - i)));
+      a.push(b);
+      i = j;
+    }
+    return a;
+  }
   if (!g_chars) return Json(s);
   Json a = Json::array();
   for (char c : s) a.push(Json(std::string(1, c)));
@@ -40,15 +70,26 @@ static Json S(const std::string &s)
 
 static std::string str(const Json &j)
 {
+  std::string r;
   if (j.type == Json::Arr) {
-    std::string r;
-    for (size_t i = 0; i < j.size(); ++i) r += j[i].str();
-    return r;
-  }
-  return j.str();
+    for (size_t i = 0; i < j.size(); ++i) {
+      if (j[i].type == Json::Arr) {  // block [unit, n]
+        const std::string u = j[i][0].str();
+        long long n = j[i][1].num();
+        r.reserve(r.size() + u.size() * (size_t)n);
+        for (long long k = 0; k < n; ++k) r += u;
+      } else
+        r += j[i].str();
+    }
+  } else
+    r = j.str();
+  if (g_byte >= 0)
+    for (auto &c : r)
+      if (c == 'X') c = (char)g_byte;
+  return r;
 }
 
-static Json tokensObs(const std::vector<std::string> &toks, Json &o)
+static void tokensObs(const std::vector<std::string> &toks, Json &o, const char *field = "tokens")
 {
   // the property speaks about the non-empty tokens; the raw count is reported for information
   Json t = Json::array();
@@ -57,10 +98,33 @@ static Json tokensObs(const std::vector<std::string> &toks, Json &o)
     joined += x;
     if (!x.empty()) t.push(S(x));
   }
-  o.set("tokens", t);
-  o.set("tokens_joined", S(joined));
-  o.set("nraw", (long long)toks.size());
-  return o;
+  o.set(field, t);
+  if (!strcmp(field, "tokens")) {
+    o.set("tokens_joined", S(joined));
+    o.set("nraw", (long long)toks.size());
+  }
+}
+
+// non-empty tokens with equal neighbours merged: [{tok, count}, ...]
+static void countedObs(const std::vector<std::string> &toks, Json &o)
+{
+  Json t = Json::array();
+  size_t i = 0, n = 0;
+  std::vector<const std::string *> ne;
+  for (auto &x : toks)
+    if (!x.empty()) ne.push_back(&x);
+  while (i < ne.size()) {
+    size_t j = i;
+    while (j < ne.size() && *ne[j] == *ne[i]) ++j;
+    Json e = Json::object();
+    e.set("tok", *ne[i]);
+    e.set("count", (long long)(j - i));
+    t.push(e);
+    n += j - i;
+    i = j;
+  }
+  o.set("tokens_counted", t);
+  o.set("ntokens", (long long)n);
 }
 
 // what was printed, read back: [-]ddd[.ddd]<suffix>
@@ -104,22 +168,69 @@ struct CountParser : rkcommon::utility::ArgumentsParser
   }
 };
 
+static Json urlAnswer(rkcommon::utility::PseudoURL &u, const std::string &n)
+{
+  Json r = Json::object();
+  r.set("n", S(n));
+  r.set("has", u.hasParam(n));
+  try {
+    std::string v = u.getValue(n);
+    r.set("throws", false);
+    r.set("val", S(v));
+  } catch (const std::exception &) {
+    r.set("throws", true);
+    r.set("val", S(""));
+  }
+  return r;
+}
+
+static Json fileObs(const rkcommon::FileName &f)
+{
+  Json o = Json::object();
+  o.set("str", f.str());
+  o.set("path", f.path());
+  o.set("base", f.base());
+  o.set("name", f.name());
+  o.set("ext", f.ext());
+  return o;
+}
+
 struct World
 {
-  // ADT state
+  // ---- ArgumentList / argc-argv state
   bool acav = false;
   std::vector<std::string> storage;
   std::vector<const char *> av;
   const char **avp = nullptr;
   int ac = 0;
   rkcommon::utility::ArgumentList *list = nullptr;
+  rkcommon::utility::ArgumentList *snapList = nullptr;  // a copy taken before a modification
+  std::vector<std::string> snapAv;
+  // ---- FileName / PseudoURL objects
+  rkcommon::FileName fo[2];
+  rkcommon::utility::PseudoURL *po[2] = {nullptr, nullptr};
+  static const char *QUERY[4];
 
   World(const Json &hist)
   {
     g_chars = hist.has("chars") && hist["chars"].boolean();
     acav = hist.has("variant") && hist["variant"].str() == "acav";
   }
-  ~World() { delete list; }
+  ~World()
+  {
+    delete list;
+    delete snapList;
+    delete po[0];
+    delete po[1];
+  }
+
+  Json itemsOf(rkcommon::utility::ArgumentList *l)
+  {
+    Json items = Json::array();
+    if (l)
+      for (int i = 0; i < l->size(); ++i) items.push(Json((*l)[i]));
+    return items;
+  }
 
   void proj(Json &o)
   {
@@ -132,7 +243,7 @@ struct World
     } else if (list) {
       o.set("size", list->size());
       o.set("empty", list->empty());
-      for (int i = 0; i < list->size(); ++i) items.push(Json((*list)[i]));
+      items = itemsOf(list);
     } else {
       o.set("size", 0);
       o.set("empty", true);
@@ -140,29 +251,78 @@ struct World
     o.set("items", items);
   }
 
+  void construct(const std::vector<std::string> &v)
+  {
+    storage.clear();
+    storage.push_back("prog");
+    for (auto &s : v) storage.push_back(s);
+    av.clear();
+    for (auto &s : storage) av.push_back(s.c_str());
+    av.push_back(nullptr);
+    ac = (int)storage.size();
+    avp = av.data();
+    delete list;
+    list = nullptr;
+    if (!acav) list = new rkcommon::utility::ArgumentList(ac, avp);
+  }
+
+  // remove with the default howMany (= 1) on a copy: must give what remove(where, 1) gives
+  void removeDefaultOnCopy(int w, Json &o)
+  {
+    Json items = Json::array();
+    if (acav) {
+      std::vector<const char *> c(avp, avp + ac + 1);
+      const char **cp = c.data();
+      int cc = ac;
+      rkcommon::removeArgs(cc, cp, w + 1, 1);
+      for (int i = 1; i < cc; ++i) items.push(Json(std::string(cp[i])));
+    } else {
+      rkcommon::utility::ArgumentList c(*list);
+      c.remove(w);
+      items = itemsOf(&c);
+    }
+    o.set("items_default", items);
+  }
+
+  void removeAt(int w, int h, Json &o)
+  {
+    if (h == 1) removeDefaultOnCopy(w, o);
+    if (acav) rkcommon::removeArgs(ac, avp, w + 1, h);
+    else list->remove(w, h);
+  }
+
   Json adt(const std::string &a, const Json &arg)
   {
     Json o = Json::object();
     if (a == "Construct") {
-      storage.clear();
-      storage.push_back("prog");
-      for (size_t i = 0; i < arg["v"].size(); ++i) storage.push_back(arg["v"][i].str());
-      av.clear();
-      for (auto &s : storage) av.push_back(s.c_str());
-      av.push_back(nullptr);
-      ac = (int)storage.size();
-      avp = av.data();
-      delete list;
-      list = nullptr;
-      if (!acav) list = new rkcommon::utility::ArgumentList(ac, avp);
+      std::vector<std::string> v;
+      for (size_t i = 0; i < arg["v"].size(); ++i) v.push_back(arg["v"][i].str());
+      construct(v);
+    } else if (a == "ConstructRep") {
+      std::vector<std::string> v;
+      const Json &pat = arg["pat"];
+      long long n = arg["n"].num();
+      for (long long k = 0; k < n; ++k)
+        for (size_t i = 0; i < pat.size(); ++i) v.push_back(pat[i].str());
+      for (size_t i = 0; i < arg["tail"].size(); ++i) v.push_back(arg["tail"][i].str());
+      construct(v);
+    } else if (a == "Snapshot") {
+      delete snapList;
+      snapList = nullptr;
+      snapAv.clear();
+      if (acav) for (int i = 1; i < ac; ++i) snapAv.push_back(avp[i]);  // the strings the pointers designate
+      else snapList = new rkcommon::utility::ArgumentList(*list);
+    } else if (a == "CheckSnapshot") {
+      Json s = Json::array();
+      if (acav) for (auto &x : snapAv) s.push(Json(x));
+      else s = itemsOf(snapList);
+      o.set("snapshot", s);
     } else if (a == "Get") {
       int i = (int)arg["i"].num();
       if (acav) o.set("ret", std::string(avp[i + 1]));
       else o.set("ret", (*list)[i]);
     } else if (a == "Remove") {
-      int w = (int)arg["w"].num(), h = (int)arg["h"].num();
-      if (acav) rkcommon::removeArgs(ac, avp, w + 1, h);
-      else list->remove(w, h);
+      removeAt((int)arg["w"].num(), (int)arg["h"].num(), o);
     } else if (a == "RemoveMod" || a == "GetMod") {
       // record mode: the random arguments are reduced into the range the real object reports;
       // the arguments actually used are part of the log
@@ -170,8 +330,7 @@ struct World
       if (a == "RemoveMod") {
         int w = (int)(arg["w"].num() % (size + 1));
         int h = (int)(arg["h"].num() % (size - w + 1));
-        if (acav) rkcommon::removeArgs(ac, avp, w + 1, h);
-        else list->remove(w, h);
+        removeAt(w, h, o);
         o.set("w", w);
         o.set("h", h);
       } else if (size == 0) {
@@ -205,49 +364,136 @@ struct World
     return o;
   }
 
+  // ---- FileName objects: every action ends with both objects decomposed again
+  Json fileObjects(const std::string &a, const Json &arg)
+  {
+    using rkcommon::FileName;
+    int d = (int)arg["d"].num() - 1;
+    if (a == "FoNew") {
+      fo[d] = FileName(arg["s"].str());
+    } else if (a == "FoAssign") {
+      FileName &src = fo[(int)arg["s"].num() - 1];
+      fo[d] = src;  // d == s: self-assignment
+    } else if (a == "FoPlus") {
+      FileName &l = fo[(int)arg["l"].num() - 1];
+      FileName &r = fo[(int)arg["r"].num() - 1];
+      if (arg["ov"].str() == "fn") fo[d] = l + r;  // operands may be the destination / each other
+      else fo[d] = l + r.str();
+    } else if (a == "FoSetExt") {
+      fo[d] = fo[(int)arg["s"].num() - 1].setExt(arg["x"].str());
+    } else if (a == "FoDropExt") {
+      fo[d] = fo[(int)arg["s"].num() - 1].dropExt();
+    }
+    Json o = Json::object();
+    o.set("f1", fileObs(fo[0]));
+    o.set("f2", fileObs(fo[1]));
+    return o;
+  }
+
+  Json urlObs(rkcommon::utility::PseudoURL *u)
+  {
+    Json o = Json::object();
+    o.set("set", u != nullptr);
+    if (!u) return o;
+    o.set("type", u->getType());
+    o.set("fileName", u->getFileName());
+    Json ps = Json::array();
+    for (int i = 0; i < 4; ++i) ps.push(urlAnswer(*u, QUERY[i]));
+    o.set("params", ps);
+    return o;
+  }
+
+  Json urlObjects(const std::string &a, const Json &arg)
+  {
+    using rkcommon::utility::PseudoURL;
+    int d = (int)arg["d"].num() - 1;
+    Json o = Json::object();
+    if (a == "PuNew") {
+      PseudoURL *n = new PseudoURL(arg["u"].str());  // the new object exists beside the old ones for a moment
+      delete po[d];
+      po[d] = n;
+    } else if (a == "PuCopy") {
+      int s = (int)arg["s"].num() - 1;
+      if (po[d]) *po[d] = *po[s];  // copy assignment; d == s: onto itself
+      else po[d] = new PseudoURL(*po[s]);
+    } else if (a == "PuAsk") {
+      o.set("ret", urlAnswer(*po[d], arg["n"].str()));
+    } else if (a == "PuDrop") {
+      delete po[d];
+      po[d] = nullptr;
+    }
+    o.set("u1", urlObs(po[0]));
+    o.set("u2", urlObs(po[1]));
+    return o;
+  }
+
   Json step(const Json &act)
   {
     using namespace rkcommon::utility;
     const std::string &a = act["a"].str();
     const Json &arg = act["arg"];
-    if (a == "Construct" || a == "Get" || a == "Remove" || a == "ParseAndRemove" || a == "RemoveMod" || a == "GetMod")
+    if (a == "Construct" || a == "ConstructRep" || a == "Get" || a == "Remove" || a == "ParseAndRemove" || a == "RemoveMod" ||
+        a == "GetMod" || a == "Snapshot" || a == "CheckSnapshot")
       return adt(a, arg);
+    if (a.compare(0, 2, "Fo") == 0) return fileObjects(a, arg);
+    if (a.compare(0, 2, "Pu") == 0) return urlObjects(a, arg);
+    g_rle = arg.has("rle") && arg["rle"].boolean();
+    g_byte = arg.has("byte") ? (int)arg["byte"].num() : -1;
     Json o = Json::object();
     o.set("ran", true);
     if (a == "SplitChar") {
       std::string d = str(arg["d"]);
       tokensObs(split(str(arg["s"]), d[0]), o);
     } else if (a == "SplitSet") {
+      // keepDelim defaults to false: both spellings are reported
       tokensObs(split(str(arg["s"]), str(arg["d"])), o);
+      tokensObs(split(str(arg["s"]), str(arg["d"]), false), o, "tokens_explicit");
     } else if (a == "Tokenize") {
       std::vector<std::string> toks;
       std::string d = str(arg["d"]);
       tokenize(str(arg["s"]), d[0], toks);
       tokensObs(toks, o);
+    } else if (a == "TokenizeReuse") {
+      // the output vector is used for two calls in a row
+      std::vector<std::string> toks;
+      std::string d = str(arg["d"]);
+      tokenize(str(arg["s1"]), d[0], toks);
+      tokensObs(toks, o, "first");
+      tokenize(str(arg["s2"]), d[0], toks);
+      tokensObs(toks, o, "after");
+    } else if (a == "SplitCharRep" || a == "SplitSetRep" || a == "TokenizeRep") {
+      std::string u = arg["u"].str(), s, d = arg["d"].str();
+      long long n = arg["n"].num();
+      s.reserve(u.size() * (size_t)n + 8);
+      for (long long k = 0; k < n; ++k) s += u;
+      s += arg["tail"].str();
+      std::vector<std::string> toks;
+      if (a == "SplitCharRep") toks = split(s, d[0]);
+      else if (a == "SplitSetRep") toks = split(s, d);
+      else tokenize(s, d[0], toks);
+      countedObs(toks, o);
     } else if (a == "Lcp") {
       o.set("lcp", S(longestBeginningMatch(str(arg["x"]), str(arg["y"]))));
     } else if (a == "BeginsWith") {
       o.set("ret", beginsWith(str(arg["x"]), str(arg["y"])));
-    } else if (a == "UrlParse") {
-      PseudoURL u(str(arg["u"]));
+    } else if (a == "UrlParse" || a == "UrlParseRep") {
+      std::string text;
+      if (a == "UrlParse") {
+        text = str(arg["u"]);
+      } else {
+        // <type>://<file>[:name=value]* with n parameters: names[(i-1) % p] = "v<i>", i = 1..n
+        std::ostringstream os;
+        os << arg["t"].str() << "://" << arg["f"].str();
+        long long n = arg["n"].num();
+        size_t p = arg["names"].size();
+        for (long long i = 1; i <= n; ++i) os << ':' << arg["names"][(size_t)((i - 1) % (long long)p)].str() << "=v" << i;
+        text = os.str();
+      }
+      PseudoURL u(text);
       o.set("type", S(u.getType()));
       o.set("fileName", S(u.getFileName()));
       Json ps = Json::array();
-      for (size_t i = 0; i < arg["q"].size(); ++i) {
-        std::string n = str(arg["q"][i]);
-        Json r = Json::object();
-        r.set("n", S(n));
-        r.set("has", u.hasParam(n));
-        try {
-          std::string v = u.getValue(n);
-          r.set("throws", false);
-          r.set("val", S(v));
-        } catch (const std::exception &) {
-          r.set("throws", true);
-          r.set("val", S(""));
-        }
-        ps.push(r);
-      }
+      for (size_t i = 0; i < arg["q"].size(); ++i) ps.push(urlAnswer(u, str(arg["q"][i])));
       o.set("params", ps);
     } else if (a.compare(0, 2, "Fn") == 0) {
       std::string s = str(arg["s"]);
@@ -259,6 +505,11 @@ struct World
         o.set("str_c", S(fc.str()));
         o.set("conv", S((std::string)f));
         o.set("cstr", S(std::string(f.c_str())));
+        std::ostringstream os;
+        os << f;
+        o.set("streamed", S(os.str()));
+        o.set("eq_self", f == rkcommon::FileName(s));
+        o.set("ne_self", f != rkcommon::FileName(s));
         o.set("path", S(f.path()));
         o.set("base", S(f.base()));
       } else if (a == "FnNameExt") {
@@ -285,6 +536,8 @@ struct World
         o.set("res_str", S(r2.str()));
         o.set("path", S(r.path()));
         o.set("base", S(r.base()));
+        o.set("eq", f == g);
+        o.set("ne", f != g);
       } else if (a == "FnRecompose") {
         rkcommon::FileName d(f.path());
         o.set("dstr", S(d.str()));
@@ -311,9 +564,13 @@ struct World
     } else {
       o.set("ret", "unknown action " + a);
     }
+    g_rle = false;
+    g_byte = -1;
     return o;
   }
 };
+
+const char *World::QUERY[4] = {"q", "n", "m", "q"};
 
 int main(int argc, char **argv)
 {
